@@ -19,12 +19,12 @@ FAMILY = {
 PROP = {
     "C01": ["search", "encoder", "trail", "watch", "cache", "amo"],
     "C02": ["search", "encoder", "trail", "watch"],
-    "C03": ["search", "conflict"],
+    "C03": ["search", "conflict", "encoder", "cache"],
     "C04": ["search", "encoder", "trail", "watch", "conflict", "mapping"],
     "C05": ["search", "trail"],
     "C06": ["search", "encoder", "conflict"],
     "C07": ["search", "encoder", "cache"],
-    "C08": ["search"],
+    "C08": ["search", "encoder"],
     "C09": ["search", "encoder", "cache"],
     "C10": ["encoder", "cache", "arena"],
     "C11": ["encoder", "cache"],
